@@ -675,8 +675,13 @@ func c34SOS(run *mon.Run, r *mon.Rand, t, n int) {
 					wantKeys = append(wantKeys, ids[to])
 				}
 			}
+			hasNil := false
 			if r.Chance(0.3) {
-				sos.ShareOrSigns[encryption.Hash("nil-entry")] = nil // nil entries are skipped by the code
+				// an entry without content (JSON null): the statement says nothing about it (refused since repository commit
+				// a12b633, skipped before); such a set must neither panic nor be accepted with an invalid entry, its rejection
+				// is not judged
+				sos.ShareOrSigns[encryption.Hash("nil-entry")] = nil
+				hasNil = true
 			}
 			// independent re-judgement of every entry (the classes above say what we meant; this says what is true)
 			for to, ks := range sos.ShareOrSigns {
@@ -711,6 +716,8 @@ func c34SOS(run *mon.Run, r *mon.Rand, t, n int) {
 				violate(run, "C34:sos-validate-panics-"+e.class, fmt.Sprintf("ShareOrSigns.Validate panicked (%s): %s", e.class, p), rep)
 			case gotOK && !wantOK:
 				violate(run, "C34:sos-validate-accepts-"+e.class, fmt.Sprintf("t=%d n=%d: ShareOrSigns.Validate accepted a set containing a %s entry", t, n, e.class), rep)
+			case !gotOK && wantOK && hasNil:
+				run.Count("c34.sos_valid_set_with_null_entry_refused", 1)
 			case !gotOK && wantOK:
 				violate(run, "C34:sos-validate-rejects-valid", fmt.Sprintf("t=%d n=%d: ShareOrSigns.Validate rejected an all-valid set (%s)", t, n, e.class), rep)
 			case gotOK:
